@@ -3,6 +3,7 @@
   and prints the model's answer per line.  Core Lean only (no Mathlib), compiled as `lean_exe`.
 -/
 import Glb.Driver.Filter
+import Glb.Driver.Strutil
 
 open Glb.Driver
 
@@ -11,4 +12,5 @@ def main (args : List String) : IO UInt32 := do
   let stdout ← IO.getStdout
   match args with
   | ["filter"] => loop stdin stdout ({} : Filter.DSt) Filter.step; return 0
+  | ["strutil"] => loop stdin stdout () Strutil.step; return 0
   | _ => IO.eprintln "usage: driver <stream>"; return 2
